@@ -44,13 +44,13 @@ func c10OptsFromParams() c10Opts {
 
 type c10Spec struct {
 	st    *c10State
-	calls []venv.TSSCall
+	calls []venv.TSSCbCall
 	pos   int // DRBG draws consumed
 }
 
 func (sp *c10Spec) call(kind string, sid tss.SigningID, members []sdk.AccAddress) {
 	if sp.st.routed {
-		sp.calls = append(sp.calls, venv.TSSCall{Kind: kind, Signing: sid, Members: members})
+		sp.calls = append(sp.calls, venv.TSSCbCall{Kind: kind, Signing: sid, Members: members})
 	}
 }
 
@@ -217,11 +217,11 @@ func c10CountKeys(e *c10Env, prefix []byte) int {
 	return n
 }
 
-func c10Check(e *c10Env, st *c10State, calls []venv.TSSCall) { c10CheckX(e, st, calls, false) }
+func c10Check(e *c10Env, st *c10State, calls []venv.TSSCbCall) { c10CheckX(e, st, calls, false) }
 
 // c10CheckX with midScan: the state between the expiry scan and the retries, in which a timed-out WAITING signing
 // has no listed attempt (S2 is re-established by the retry or by FALLEN).
-func c10CheckX(e *c10Env, st *c10State, calls []venv.TSSCall, midScan bool) {
+func c10CheckX(e *c10Env, st *c10State, calls []venv.TSSCbCall, midScan bool) {
 	ctx, k := e.ctx, e.k
 
 	// owner callbacks: exactly the specified ones, in order, with the specified members
